@@ -1,13 +1,17 @@
 // C11 driver: (1) map histories on the real iterable.Map with the node counts
 // of the verif hook after every call, (2) histories of GetOrCreate/Remove/Clear
-// on the real lru.ECache with the hook's node count of the inner map required
-// to stay <= capacity+1 throughout (the bound of theorem lru_retention) and the
-// model evaluated by run/Run_C11.v on a prefix of every history.
+// on the real lru.ECache -- also with calls made re-entrantly from the create
+// function and with batches of concurrent creators released one by one -- with
+// the hook's node count of the inner map required to stay <= capacity+1
+// throughout (the bound of theorem lru_retention) and the model evaluated by
+// run/Run_C11.v on a prefix of every history.
 package main
 
 import (
 	"errors"
 	"fmt"
+	"sync"
+	"time"
 
 	"verifharness/internal/hx"
 	"verifharness/internal/imapx"
@@ -17,9 +21,11 @@ import (
 )
 
 // Case: Kind "map": Ops is a map history (imapx vocabulary).
-// Kind "lru": Ops uses g (GetOrCreate A, create returns V or fails if F), r (Remove A), c (Clear);
-// the list is run Rep times (default 1).  If GLen > 0 the operations are not
-// listed but generated from (GSeed, GLen) -- long histories.
+// Kind "lru": Ops uses g (GetOrCreate A; the create function returns V, or fails if F, after
+// making the calls N re-entrantly), r (Remove A), c (Clear), b (the GetOrCreate calls N, on
+// distinct keys, started one after the other on their own goroutines, each parked inside its
+// create function, then released in the listed order); the list is run Rep times (default 1).
+// If GLen > 0 the operations are not listed but generated from (GSeed, GLen, GNest) -- long histories.
 type Case struct {
 	ID    uint64     `json:"id"`
 	Kind  string     `json:"kind"`
@@ -28,17 +34,26 @@ type Case struct {
 	Rep   int        `json:"rep,omitempty"`
 	GSeed uint64     `json:"gseed,omitempty"`
 	GLen  int        `json:"glen,omitempty"`
+	GNest bool       `json:"gnest,omitempty"`
 	KF    string     `json:"kf,omitempty"`
 }
 
 const modelPrefix = 2000
 
+type violation struct {
+	what   string
+	detail map[string]any
+}
+
 func runMap(c Case, s *hx.Sink) string {
-	r := imapx.NewRunner()
 	var steps []string
 	open := 0
-	for i, o := range c.Ops {
-		ob := r.Do(o)
+	for i, ob := range imapx.RunGuarded(c.Ops, nil) {
+		o := c.Ops[i]
+		if ob.Hung {
+			s.DirectViolation(c.ID, "a map call did not return", map[string]any{"op": i, "detail": ob.PanicMsg})
+			break
+		}
 		if ob.Panicked {
 			s.DirectViolation(c.ID, "the map panicked", map[string]any{"op": i, "panic": ob.PanicMsg})
 			break
@@ -52,9 +67,14 @@ func runMap(c Case, s *hx.Sink) string {
 		if !ob.HeadOK {
 			s.DirectViolation(c.ID, "the list reachable from head is inconsistent", map[string]any{"op": i})
 		}
-		if open == 0 && ob.Nodes != r.M.Len()+1 {
+		// the bounds of theorems chain_length / pinned_le_iters / closed_no_garbage
+		if ob.Nodes > ob.Len+1+open || ob.Deleted > open {
+			s.DirectViolation(c.ID, "reachable nodes > Len()+1+open iterators (or more pinned entries than open iterators)",
+				map[string]any{"op": i, "nodes": ob.Nodes, "len": ob.Len, "open": open, "deleted": ob.Deleted})
+		}
+		if open == 0 && ob.Nodes != ob.Len+1 {
 			s.DirectViolation(c.ID, "no iterator open but reachable nodes != Len()+1",
-				map[string]any{"op": i, "nodes": ob.Nodes, "len": r.M.Len()})
+				map[string]any{"op": i, "nodes": ob.Nodes, "len": ob.Len})
 		}
 		s.Count("map-op:" + o.K)
 		if ob.Deleted > 0 {
@@ -79,12 +99,43 @@ func coqLop(o imapx.Op) string {
 
 var errCreate = errors.New("scripted create failure")
 
-func genLru(seed uint64, n, cap int) []imapx.Op {
-	r := prng.New(seed, "C11lru", uint64(cap))
+// genLru: a history of n top-level calls for capacity cap.  With nest, some GetOrCreate calls
+// make further calls (on other keys) from inside the create function, and some calls are
+// batches of concurrent creators.
+func genLru(seed uint64, n, cap int, nest bool) []imapx.Op {
+	stream := "C11lru"
+	if nest {
+		stream = "C11lru-nested"
+	}
+	r := prng.New(seed, stream, uint64(cap))
 	ops := make([]imapx.Op, 0, n)
 	nk := cap + 1 + r.Intn(cap+3)
 	clearEvery := 20 + r.Intn(200)
 	val := int64(1000)
+	var mk func(depth int, busy map[int64]bool) imapx.Op
+	mk = func(depth int, busy map[int64]bool) imapx.Op {
+		k := int64(1 + r.Intn(nk))
+		for busy[k] {
+			k = k%int64(nk) + 1
+		}
+		val++
+		o := imapx.Op{K: "g", A: k, V: val, F: r.Chance(1, 12)}
+		if nest && depth < 3 && len(busy)+1 < nk && r.Chance(1, 4) {
+			busy[k] = true
+			for j := 1 + r.Intn(3); j > 0; j-- {
+				if r.Chance(1, 5) {
+					k2 := int64(1 + r.Intn(nk))
+					if !busy[k2] {
+						o.N = append(o.N, imapx.Op{K: "r", A: k2})
+					}
+				} else {
+					o.N = append(o.N, mk(depth+1, busy))
+				}
+			}
+			delete(busy, k)
+		}
+		return o
+	}
 	for len(ops) < n {
 		x := r.Intn(1000)
 		switch {
@@ -92,110 +143,274 @@ func genLru(seed uint64, n, cap int) []imapx.Op {
 			ops = append(ops, imapx.Op{K: "c"})
 		case x < 120:
 			ops = append(ops, imapx.Op{K: "r", A: int64(1 + r.Intn(nk))})
+		case nest && x < 170:
+			// a batch of concurrent creators on distinct keys
+			m := 2 + r.Intn(cap+2)
+			if m > nk {
+				m = nk
+			}
+			b := imapx.Op{K: "b"}
+			first := r.Intn(nk)
+			for j := 0; j < m; j++ {
+				val++
+				b.N = append(b.N, imapx.Op{K: "g", A: int64(1 + (first+j)%nk), V: val, F: r.Chance(1, 12)})
+			}
+			ops = append(ops, b)
 		default:
-			val++
-			ops = append(ops, imapx.Op{K: "g", A: int64(1 + r.Intn(nk)), V: val, F: r.Chance(1, 12)})
+			ops = append(ops, mk(0, map[int64]bool{}))
 		}
 	}
 	return ops
 }
 
-func runLru(c Case, s *hx.Sink) string {
-	ops := c.Ops
-	if c.GLen > 0 {
-		ops = genLru(c.GSeed, c.GLen, c.Cap)
+// callCtx: one GetOrCreate/Remove/Clear call in progress
+type callCtx struct {
+	op      imapx.Op
+	creates int
+	deleted [][2]int64
+	entered chan struct{} // batch members: closed when the create function has been entered
+	release chan struct{} // batch members: closed to let the create function return
+}
+
+type lruResult struct {
+	steps    []string
+	calls    int
+	maxNodes int
+	nested   int
+	batched  int
+	viol     *violation
+}
+
+type lruRunner struct {
+	c        Case
+	cache    *lru.ECache[int64, int64, int64]
+	mu       sync.Mutex
+	byKey    map[int64]*callCtx // the GetOrCreate in progress on a key
+	active   *callCtx           // the call whose critical section runs onDeleteF
+	inflight int                // create functions entered and not yet returned from GetOrCreate
+	res      lruResult
+}
+
+func (r *lruRunner) fail(what string, detail map[string]any) {
+	if r.res.viol == nil {
+		detail["call"] = r.res.calls
+		r.res.viol = &violation{what, detail}
 	}
+}
+
+// create is the cache's createNewF
+func (r *lruRunner) create(k int64) (int64, error) {
+	r.mu.Lock()
+	ctx := r.byKey[k]
+	r.inflight++
+	r.mu.Unlock()
+	ctx.creates++
+	if ctx.release != nil {
+		close(ctx.entered)
+		<-ctx.release
+	} else {
+		for _, o := range ctx.op.N { // re-entrant calls: the cache lock is not held here
+			if r.res.viol != nil {
+				break
+			}
+			r.res.nested++
+			r.call(o)
+		}
+		r.active = ctx
+	}
+	if ctx.op.F {
+		return 0, errCreate
+	}
+	return ctx.op.V, nil
+}
+
+func (r *lruRunner) onDelete(k int64, v int64) {
+	if r.active != nil {
+		r.active.deleted = append(r.active.deleted, [2]int64{k, v})
+	}
+}
+
+func goOut(ctx *callCtx, v int64, err error) string {
+	switch {
+	case err == nil && ctx.creates == 0 && len(ctx.deleted) == 0:
+		return "CHit " + hx.Z(v)
+	case err == nil && ctx.creates == 1 && len(ctx.deleted) == 0:
+		return "CMiss " + hx.Z(v) + " None"
+	case err == nil && ctx.creates == 1 && len(ctx.deleted) == 1:
+		return fmt.Sprintf("CMiss %s (Some (%s, %s))", hx.Z(v), hx.Z(ctx.deleted[0][0]), hx.Z(ctx.deleted[0][1]))
+	case errors.Is(err, errCreate) && ctx.creates == 1 && len(ctx.deleted) == 0:
+		return "CFail"
+	}
+	return "CStop"
+}
+
+// record: the call o has returned; out is its projected result
+func (r *lruRunner) record(o imapx.Op, out string) {
+	nodes, del, ref, ok := r.cache.VerifWalk()
+	if nodes > r.res.maxNodes {
+		r.res.maxNodes = nodes
+	}
+	r.mu.Lock()
+	wantInflight := r.inflight
+	r.mu.Unlock()
+	if nodes > r.c.Cap+1 || del != 0 || ref != 0 || !ok || r.cache.VerifInflight() != wantInflight {
+		r.fail("cache retains more than capacity+1 list nodes (or pinned/referenced nodes, or an in-flight entry) at an operation boundary",
+			map[string]any{"nodes": nodes, "cap": r.c.Cap, "deleted": del, "sumRef": ref, "consistent": ok,
+				"inflight": r.cache.VerifInflight(), "creators": wantInflight})
+	}
+	if r.res.calls < modelPrefix {
+		r.res.steps = append(r.res.steps, fmt.Sprintf("Ls (%s) (%s) %s %s %s", coqLop(o), out, hx.Nat(nodes), hx.Nat(del), hx.Z(int64(ref))))
+	}
+	r.res.calls++
+}
+
+func (r *lruRunner) getOrCreate(ctx *callCtx) (int64, error) {
+	k := ctx.op.A
+	r.mu.Lock()
+	r.byKey[k] = ctx
+	r.mu.Unlock()
+	v, err := r.cache.GetOrCreate(k)
+	r.mu.Lock()
+	delete(r.byKey, k)
+	r.inflight -= ctx.creates
+	r.mu.Unlock()
+	return v, err
+}
+
+// call runs one operation to completion (nested calls and batch members are recorded in
+// completion order: that is the order of their critical sections)
+func (r *lruRunner) call(o imapx.Op) {
+	defer func() {
+		if x := recover(); x != nil {
+			r.fail("the cache panicked", map[string]any{"panic": fmt.Sprint(x)})
+		}
+	}()
+	switch o.K {
+	case "g":
+		ctx := &callCtx{op: o}
+		v, err := r.getOrCreate(ctx)
+		r.record(o, goOut(ctx, v, err))
+	case "r":
+		ctx := &callCtx{op: o}
+		r.active = ctx
+		b := r.cache.Remove(o.A)
+		out := "CStop"
+		if (b && len(ctx.deleted) == 1) || (!b && len(ctx.deleted) == 0) {
+			out = "CRemoved " + hx.Bool(b)
+		}
+		r.record(o, out)
+	case "c":
+		ctx := &callCtx{op: o}
+		r.active = ctx
+		n := r.cache.Clear()
+		out := "CStop"
+		if n == len(ctx.deleted) {
+			out = "CCleared " + hx.Nat(n)
+		}
+		r.record(o, out)
+	case "b":
+		type done struct {
+			v   int64
+			err error
+		}
+		var parked []*callCtx
+		var chans []chan done
+		for _, m := range o.N {
+			ctx := &callCtx{op: m, entered: make(chan struct{}), release: make(chan struct{})}
+			ch := make(chan done, 1)
+			go func() {
+				defer func() {
+					if x := recover(); x != nil {
+						ch <- done{0, fmt.Errorf("panic: %v", x)}
+					}
+				}()
+				v, err := r.getOrCreate(ctx)
+				ch <- done{v, err}
+			}()
+			select {
+			case <-ctx.entered: // a miss: parked inside the create function
+				parked = append(parked, ctx)
+				chans = append(chans, ch)
+			case d := <-ch: // a hit: complete
+				r.res.batched++
+				r.record(m, goOut(ctx, d.v, d.err))
+			}
+		}
+		for i, ctx := range parked {
+			r.active = ctx
+			close(ctx.release)
+			d := <-chans[i]
+			r.res.batched++
+			r.record(ctx.op, goOut(ctx, d.v, d.err))
+		}
+	default:
+		panic("bad cache op " + o.K)
+	}
+}
+
+func runLruOnce(c Case, ops []imapx.Op) (lruResult, bool) {
+	r := &lruRunner{c: c, byKey: map[int64]*callCtx{}}
+	cache, err := lru.NewECache[int64, int64, int64](c.Cap, func(k int64) int64 { return k }, r.create, r.onDelete)
+	if err != nil {
+		panic(err)
+	}
+	r.cache = cache
 	rep := c.Rep
 	if rep < 1 {
 		rep = 1
 	}
-	var script imapx.Op
-	creates := 0
-	var deleted [][2]int64
-	cache, err := lru.NewECache[int64, int64, int64](c.Cap, func(k int64) int64 { return k },
-		func(k int64) (int64, error) {
-			creates++
-			if script.F {
-				return 0, errCreate
-			}
-			return script.V, nil
-		},
-		func(k int64, v int64) { deleted = append(deleted, [2]int64{k, v}) })
-	if err != nil {
-		panic(err)
-	}
-	var steps []string
-	idx := 0
-	maxNodes := 0
-	violated := false
-	for rp := 0; rp < rep && !violated; rp++ {
-		for _, o := range ops {
-			out := "CStop"
-			func() {
-				defer func() {
-					if x := recover(); x != nil {
-						out = "CStop"
-						if !violated {
-							s.DirectViolation(c.ID, "the cache panicked", map[string]any{"op": idx, "panic": fmt.Sprint(x)})
-							violated = true
-						}
-					}
-				}()
-				script, creates, deleted = o, 0, deleted[:0]
-				switch o.K {
-				case "g":
-					v, err := cache.GetOrCreate(o.A)
-					switch {
-					case err == nil && creates == 0 && len(deleted) == 0:
-						out = "CHit " + hx.Z(v)
-					case err == nil && creates == 1 && len(deleted) == 0:
-						out = "CMiss " + hx.Z(v) + " None"
-					case err == nil && creates == 1 && len(deleted) == 1:
-						out = fmt.Sprintf("CMiss %s (Some (%s, %s))", hx.Z(v), hx.Z(deleted[0][0]), hx.Z(deleted[0][1]))
-					case errors.Is(err, errCreate) && creates == 1 && len(deleted) == 0:
-						out = "CFail"
-					}
-				case "r":
-					b := cache.Remove(o.A)
-					if (b && len(deleted) == 1) || (!b && len(deleted) == 0) {
-						out = "CRemoved " + hx.Bool(b)
-					}
-				case "c":
-					n := cache.Clear()
-					if n == len(deleted) {
-						out = "CCleared " + hx.Nat(n)
-					}
+	fin := make(chan struct{})
+	go func() {
+		defer close(fin)
+		for rp := 0; rp < rep; rp++ {
+			for _, o := range ops {
+				if r.res.viol != nil {
+					return
 				}
-			}()
-			if violated {
-				break
-			}
-			nodes, del, ref, ok := cache.VerifWalk()
-			if nodes > maxNodes {
-				maxNodes = nodes
-			}
-			if !violated && (nodes > c.Cap+1 || del != 0 || ref != 0 || !ok || cache.VerifInflight() != 0) {
-				s.DirectViolation(c.ID, "cache retains more than capacity+1 list nodes (or pinned/referenced nodes) at an operation boundary",
-					map[string]any{"op": idx, "nodes": nodes, "cap": c.Cap, "deleted": del, "sumRef": ref, "consistent": ok})
-				violated = true
-			}
-			if idx < modelPrefix {
-				steps = append(steps, fmt.Sprintf("Ls (%s) (%s) %s %s %s", coqLop(o), out, hx.Nat(nodes), hx.Nat(del), hx.Z(int64(ref))))
-			}
-			idx++
-			if violated {
-				break
+				r.call(o)
 			}
 		}
+	}()
+	// generous: the unchanged tree serves >= 10^5 calls per second
+	limit := 30*time.Second + time.Duration(len(ops)*rep)*time.Millisecond
+	select {
+	case <-fin:
+		return r.res, false
+	case <-time.After(limit):
+		return lruResult{calls: -1}, true
 	}
-	s.Count("lru-calls-total:" + sizeClass(idx))
-	s.Extra["lru_calls"] = toInt(s.Extra["lru_calls"]) + idx
-	if maxNodes > toInt(s.Extra["lru_max_nodes_minus_cap"])+c.Cap {
-		s.Extra["lru_max_nodes_minus_cap"] = maxNodes - c.Cap
+}
+
+func runLru(c Case, s *hx.Sink) string {
+	ops := c.Ops
+	if c.GLen > 0 {
+		ops = genLru(c.GSeed, c.GLen, c.Cap, c.GNest)
+	}
+	var res lruResult
+	hung := true
+	for attempt := 0; attempt < 3 && hung; attempt++ {
+		res, hung = runLruOnce(c, ops)
+	}
+	if hung {
+		hungCases++
+		s.DirectViolation(c.ID, "a cache history did not finish (3 attempts): some call does not return", map[string]any{"cap": c.Cap})
+		return fmt.Sprintf("LruCase %s %s []", hx.N(c.ID), hx.Nat(c.Cap))
+	}
+	if res.viol != nil {
+		s.DirectViolation(c.ID, res.viol.what, res.viol.detail)
+	}
+	s.Count("lru-calls-total:" + sizeClass(res.calls))
+	s.Extra["lru_calls"] = toInt(s.Extra["lru_calls"]) + res.calls
+	s.Extra["lru_calls_reentrant"] = toInt(s.Extra["lru_calls_reentrant"]) + res.nested
+	s.Extra["lru_calls_concurrent_batches"] = toInt(s.Extra["lru_calls_concurrent_batches"]) + res.batched
+	if res.maxNodes > toInt(s.Extra["lru_max_nodes_minus_cap"])+c.Cap {
+		s.Extra["lru_max_nodes_minus_cap"] = res.maxNodes - c.Cap
 	}
 	s.Count(fmt.Sprintf("lru-cap:%s", capClass(c.Cap)))
-	return fmt.Sprintf("LruCase %s %s %s", hx.N(c.ID), hx.Nat(c.Cap), hx.List(steps))
+	return fmt.Sprintf("LruCase %s %s %s", hx.N(c.ID), hx.Nat(c.Cap), hx.List(res.steps))
 }
+
+var hungCases int
 
 func toInt(v any) int {
 	if x, ok := v.(int); ok {
@@ -249,6 +464,10 @@ func main() {
 	}
 	id := uint64(0)
 	emit := func(c Case, kind string) {
+		if imapx.HungCases+hungCases >= 3 { // every hung history leaves a spinning goroutine behind: the check has failed, stop here
+			s.Count("skipped-after-3-hung-histories")
+			return
+		}
 		id++
 		c.ID = id
 		s.Add(c, runCase(c, s), nontrivial(c))
@@ -264,9 +483,12 @@ func main() {
 	imapx.Enumerate(d, []int64{1, 2}, 2, func(ops []imapx.Op) { emit(Case{Kind: "map", Ops: ops}, "map-exhaustive") })
 	for i := 0; i < nrand; i++ {
 		r := prng.New(fl.Seed, "C11map", uint64(i))
-		if i%5 == 0 {
+		switch {
+		case i%5 == 0:
 			emit(Case{Kind: "map", Ops: imapx.Random(r, 150, 5, 8, true)}, "map-random-8-iterators")
-		} else {
+		case i%10 == 1:
+			emit(Case{Kind: "map", Ops: imapx.RandomChurn(r, 250, 4, 3)}, "map-random-long-churn")
+		default:
 			emit(Case{Kind: "map", Ops: imapx.Random(r, 60, 3, 3, true)}, "map-random")
 		}
 	}
@@ -296,7 +518,8 @@ func main() {
 		}
 		rec(0)
 	}
-	// 3. cache: random histories fully evaluated by the model
+	// 3. cache: random histories fully evaluated by the model; every second one with re-entrant
+	// calls from the create function and batches of concurrent creators
 	nshort := 300
 	if thorough {
 		nshort = 3000
@@ -304,7 +527,11 @@ func main() {
 	for i := 0; i < nshort; i++ {
 		r := prng.New(fl.Seed, "C11short", uint64(i))
 		cap := prng.Pick(r, []int{1, 1, 2, 2, 3, 4, 5, 8})
-		emit(Case{Kind: "lru", Cap: cap, Ops: genLru(fl.Seed*7919+uint64(i), 100, cap)}, "lru-random-short")
+		if i%2 == 0 {
+			emit(Case{Kind: "lru", Cap: cap, Ops: genLru(fl.Seed*7919+uint64(i), 100, cap, false)}, "lru-random-short")
+		} else {
+			emit(Case{Kind: "lru", Cap: cap, Ops: genLru(fl.Seed*7919+uint64(i), 60, cap, true)}, "lru-random-short-reentrant-concurrent")
+		}
 	}
 	// 4. cache: long histories, bound enforced throughout, model on the prefix
 	long := 10000
@@ -322,7 +549,8 @@ func main() {
 			n = long / 10 // every capacity 1..64 gets 10^5 calls, 15 of them 10^6
 		}
 		emit(Case{Kind: "lru", Cap: cap, GSeed: fl.Seed + uint64(cap)*1000003, GLen: n}, "lru-long")
+		emit(Case{Kind: "lru", Cap: cap, GSeed: fl.Seed + uint64(cap)*1000003, GLen: n / 10, GNest: true}, "lru-long-reentrant-concurrent")
 	}
-	s.Close("map histories: all well-formed histories of d state-changing calls over 2 keys / 2 iterators with the probe suffix, and random histories (60 calls, 3 keys, 3 iterators; 150 calls, 5 keys, 8 iterators) ending with every iterator closed; "+
-		"cache histories: all sequences of the given depth over {GetOrCreate 1,2,3, failing GetOrCreate, Remove 1,2, Clear} for capacities 1..3, random histories of 100 calls, and long random histories (quick 10^4, thorough 10^5..10^6 calls) for capacities 1..64 with the hook's node count checked <= capacity+1 after every call and the model evaluated on the first 2000 calls; non-trivial = at least 3 calls", false)
+	s.Close("map histories: all well-formed histories of d state-changing calls over 2 keys / 2 iterators with the probe suffix, and random histories (60 calls, 3 keys, 3 iterators; 150 calls, 5 keys, 8 iterators; 250 calls of churn: entries removed under iterators that are closed later) ending with every iterator closed, the hook's node count checked against Len()+1+open iterators after every call; "+
+		"cache histories: all sequences of the given depth over {GetOrCreate 1,2,3, failing GetOrCreate, Remove 1,2, Clear} for capacities 1..3, random histories of 100 calls, random histories with calls made re-entrantly from the create function and with batches of concurrent creators (parked inside the create function, released one by one), and long random histories (quick 10^4, thorough 10^5..10^6 calls) for capacities 1..64 with the hook's node count checked <= capacity+1 after every call and the model evaluated on the first 2000 calls; non-trivial = at least 3 calls", false)
 }
